@@ -105,3 +105,42 @@ pub mod clock {
 
 /// Pass-through to the crate-private merge channel.
 pub use crate::cluster::metadata::merge_channel::verif_hooks as merge_channel;
+
+/// Per-node override used by the verification harness to describe liveness and
+/// sharding of nodes that have no real connection pool. Unset = real behaviour.
+#[derive(Debug, Default)]
+pub struct NodeOverride {
+    enabled: std::sync::atomic::AtomicU8,
+    connected: std::sync::atomic::AtomicU8,
+    sharder: std::sync::Mutex<Option<Option<crate::routing::Sharder>>>,
+}
+
+impl NodeOverride {
+    fn get(a: &std::sync::atomic::AtomicU8) -> Option<bool> {
+        match a.load(std::sync::atomic::Ordering::SeqCst) {
+            1 => Some(false),
+            2 => Some(true),
+            _ => None,
+        }
+    }
+    pub fn enabled(&self) -> Option<bool> {
+        Self::get(&self.enabled)
+    }
+    pub fn connected(&self) -> Option<bool> {
+        Self::get(&self.connected)
+    }
+    pub fn sharder(&self) -> Option<Option<crate::routing::Sharder>> {
+        self.sharder.lock().unwrap().clone()
+    }
+    pub fn set(&self, enabled: bool, connected: bool) {
+        use std::sync::atomic::Ordering::SeqCst;
+        self.enabled.store(if enabled { 2 } else { 1 }, SeqCst);
+        self.connected.store(if connected { 2 } else { 1 }, SeqCst);
+    }
+    pub fn set_sharder(&self, sharder: Option<crate::routing::Sharder>) {
+        *self.sharder.lock().unwrap() = Some(sharder);
+    }
+}
+
+/// In-memory construction of `ClusterState` and tablet bookkeeping (real code paths).
+pub use crate::cluster::verif_state_hooks as cluster;
